@@ -147,7 +147,8 @@ class C07(Check):
                    "(documented Fortran-order layout).  The oracle is the chain rule sum_{i,j} dL/dyhat_ij * S_{state_j,k}(t_i) assembled from the "
                    "reference loss (own differentiator) for the free parameters IN THE ORDER SUPPLIED, then the free initial values; z3 proves "
                    "equality entry by entry for all values.  Replays use central finite differences of the reference cost on a tight-tolerance "
-                   "reference solution against the real integrators.")
+                   "reference solution against the real integrators.  Call histories on one object (an initial-value evaluation elsewhere first) and typed "
+                   "initial values (Python ints / int64): the integration must start from the object's CURRENT initial state.")
     stubs = ["scipy.integrate.ode contract; augmented flow components uninterpreted", "np.linalg.eig fixed", "poisson.logpmf closed form; gammaln UF"]
     assumptions = ["integrated sensitivities equal dx/dtheta (ODE theory + C13)", "non-unit weights only for Square and Normal (whose cost uses them)",
                    "floats as reals"]
